@@ -675,3 +675,112 @@ Example C09_x86_substitute_memory_example :
     rget s' FREE = Some (HEAP_BASE + 64) /\ hword s' (HEAP_BASE + 64) = HEAP_BASE + 192 /\ hword s' (HEAP_BASE + 128) = 1.
 Proof. exact x86_substitute_memory_example. Qed.
 Print Assumptions C09_x86_substitute_memory_example.
+
+(* ====================================================================================== *)
+(* AArch64: the allocator code of lang/axcut2aarch64/src/memory.rs (model: Model/A64.v, ISA semantics: Sem/A64Sem.v)
+   refines the SAME abstract allocator through an abstraction `abs_heap` of the AArch64 state (HEAP = X0, FREE = X1,
+   header = word 0 of a block, pointer slots = the words at offsets 16/32/48); `is_blk` and the block-wise equality
+   `st_eqB` are the ones of the x86-64 statements above (the ISA models place the heap at the same addresses).
+   Proof/A64Mem.v, Proof/A64MemOps.v.  Differences in the hypotheses: the header tests are `CMP #0` on the 64-bit
+   value, so headers that are tested must be 64-bit values (`min_int <= hword s rv <= max_int`, the lower bounds of
+   erase, `bounded`); counts are updated through TEMP2 = X3, so X2 AND X3 are scratch (`sbt`).
+   Every statement also says what is left alone: registers, spill slots, the stack outside the spill area
+   (`stack_frame`), heap words that are not block headers (`nonblk_same`), the output.
+   SEEDED DEFECT 1 (acquire_block into a spill slot initialising the header of the wrong block): for that variant
+   `C09_a64_acquire_block_spill` is false - in case (1) the conclusion demands header(rv) = 0 while the defective
+   code (`STR XZR, [HEAP]` after `LDR HEAP, [HEAP]`) leaves the free-list link in rv and clears the header of the
+   NEXT reusable block; in the proof, `a64_acquire_tail` (Proof/A64MemOps.v) needs `rget s ri = Some rv` for the
+   register the store goes through. *)
+From SCC Require Import Model.A64 Sem.A64Sem Proof.A64State Proof.A64Sel Proof.A64Exec Proof.A64Mem Proof.A64MemOps Proof.A64MemTop.
+
+Theorem C09_a64_share_block :
+  forall im pos t n lc s sp p F,
+    let cs := fst (a_share_block_n t n lc) in
+    code_at im pos cs -> labels_at im pos cs ->
+    frame_ok s sp -> operand_ok t -> lget s sp t = Some p ->
+    (p = 0 \/ is_blk p) ->
+    (p <> 0 -> AxSem.wrap (hword s p + Z.of_N n) = hword s p + Z.of_N n) ->
+    exists s', exec_to im pos s (padd pos (List.length cs)) s' /\
+       st_eqB (abs_heap F s') (Heap.share p (Z.of_N n) (abs_heap F s)) /\
+       sbt s s' /\ frame_ok s' sp /\
+       (forall a, hword s' a = if andb (negb (p =? 0)) (a =? p) then hword s p + Z.of_N n else hword s a).
+Proof. exact a64_share_block_ok. Qed.
+Print Assumptions C09_a64_share_block.
+
+Theorem C09_a64_erase_block :
+  forall im pos t lc s sp p f F,
+    let cs := fst (a_erase_block t lc) in
+    code_at im pos cs -> labels_at im pos cs ->
+    frame_ok s sp -> operand_ok t -> t <> AR FREE -> t <> AR HEAP -> lget s sp t = Some p -> rget s FREE = Some f ->
+    (p = 0 \/ is_blk p) ->
+    (p <> 0 -> AxSem.min_int + 1 <= hword s p <= AxSem.max_int) ->
+    exists s', exec_to im pos s (padd pos (List.length cs)) s' /\
+       st_eqB (abs_heap F s') (Heap.erase p (abs_heap F s)) /\
+       sbtf s s' /\ frame_ok s' sp /\ rget s' FREE = Some (Heap.free (Heap.erase p (abs_heap F s))) /\
+       nonblk_same s s'.
+Proof. exact a64_erase_block_ok. Qed.
+Print Assumptions C09_a64_erase_block.
+
+Theorem C09_a64_release_block :
+  forall im pos r s p h F,
+    code_at im pos (release_block r) -> gp r ->
+    rget s r = Some p -> rget s HEAP = Some h -> is_blk p ->
+    exists s', exec_to im pos s (padd pos 2) s' /\
+       st_eqB (abs_heap F s') (Heap.release p (abs_heap F s)) /\
+       (forall r', r' <> HEAP -> rget s' r' = rget s r') /\ rget s' HEAP = Some p /\ stack s' = stack s /\ out s' = out s /\
+       (forall a, hword s' a = if a =? p then h else hword s a).
+Proof. exact a64_release_block_ok. Qed.
+Print Assumptions C09_a64_release_block.
+
+(* acquire_block: (1) next block of the reuse list, (2) recycle the first deferred block and erase its three
+   children lazily, (3) bump; the new block in a register ... *)
+Theorem C09_a64_acquire_block_reg :
+  forall im pos r lc s sp rv h2 F,
+    let cs := fst (acquire_block (AR r) lc) in
+    code_at im pos cs -> labels_at im pos cs ->
+    frame_ok s sp -> gp r -> r <> HEAP -> r <> FREE -> r <> TEMP -> r <> TEMP2 ->
+    rget s HEAP = Some rv -> is_blk rv -> rget s FREE = Some h2 ->
+    AxSem.min_int <= hword s rv <= AxSem.max_int ->
+    (hword s rv = 0 -> is_blk h2) ->
+    (hword s rv = 0 -> hword s h2 <> 0 ->
+       (forall off, off = 16 \/ off = 32 \/ off = 48 -> hword s (h2 + off) = 0 \/ is_blk (hword s (h2 + off))) /\
+       bounded 3 s (hword s h2)) ->
+    exists s', exec_to im pos s (padd pos (List.length cs)) s' /\
+      st_eqB (abs_heap (Heap.frontier (snd (Heap.acquire (abs_heap F s)))) s') (snd (Heap.acquire (abs_heap F s))) /\
+      rget s' r = Some rv /\ fst (Heap.acquire (abs_heap F s)) = rv /\
+      (forall r', r' <> r -> r' <> TEMP -> r' <> TEMP2 -> r' <> HEAP -> r' <> FREE -> rget s' r' = rget s r') /\
+      stack s' = stack s /\ out s' = out s /\ frame_ok s' sp /\ nonblk_same s s'.
+Proof. exact a64_acquire_block_reg_ok. Qed.
+Print Assumptions C09_a64_acquire_block_reg.
+
+(* ... or in a spill slot (the path of seeded defect 1) *)
+Theorem C09_a64_acquire_block_spill :
+  forall im pos q lc s sp rv h2 F,
+    let cs := fst (acquire_block (AS q) lc) in
+    code_at im pos cs -> labels_at im pos cs ->
+    frame_ok s sp -> slot_ok q ->
+    rget s HEAP = Some rv -> is_blk rv -> rget s FREE = Some h2 ->
+    AxSem.min_int <= hword s rv <= AxSem.max_int ->
+    (hword s rv = 0 -> is_blk h2) ->
+    (hword s rv = 0 -> hword s h2 <> 0 ->
+       (forall off, off = 16 \/ off = 32 \/ off = 48 -> hword s (h2 + off) = 0 \/ is_blk (hword s (h2 + off))) /\
+       bounded 3 s (hword s h2)) ->
+    exists s', exec_to im pos s (padd pos (List.length cs)) s' /\
+      st_eqB (abs_heap (Heap.frontier (snd (Heap.acquire (abs_heap F s)))) s') (snd (Heap.acquire (abs_heap F s))) /\
+      sget s' sp q = Some rv /\ fst (Heap.acquire (abs_heap F s)) = rv /\
+      (forall r', r' <> TEMP -> r' <> TEMP2 -> r' <> HEAP -> r' <> FREE -> rget s' r' = rget s r') /\
+      (forall q', slot_ok q' -> q' <> q -> sget s' sp q' = sget s sp q') /\ out s' = out s /\ frame_ok s' sp /\
+      nonblk_same s s' /\ stack_frame s s' sp.
+Proof. exact a64_acquire_block_spill_ok. Qed.
+Print Assumptions C09_a64_acquire_block_spill.
+
+Theorem C09_a64_image :
+  forall cs, NoDup (label_names cs) -> code_at (mk_image cs) 1%positive cs /\ labels_at (mk_image cs) 1%positive cs.
+Proof. exact mk_image_code_labels. Qed.
+Print Assumptions C09_a64_image.
+
+Theorem C09_a64_steps_run :
+  forall im pc s pc' s', exec_to im pc s pc' s' ->
+    exists n, forall fuel, run_chunk (n + fuel) im pc s = run_chunk fuel im pc' s'.
+Proof. exact exec_to_run_chunk. Qed.
+Print Assumptions C09_a64_steps_run.
